@@ -67,6 +67,23 @@ func genChain2(t *rapid.T) case2 {
 	return c
 }
 
+// genColinearOrders: bent polygons and an eps that puts several adjacent vertices near the threshold.
+func genColinearOrders(t *rapid.T) case2 {
+	eps := gen.LogF(t, 1e-8, 1e-2, "eps")
+	s := src2{Kind: "polygon"}
+	n := gen.Int(t, 1, 2, "npoly")
+	for i := 0; i < n; i++ {
+		p := genBendPoly2(t, eps, "poly")
+		p.C[0] += float64(i) * 40
+		s.Polys = append(s.Polys, p)
+	}
+	ops := []op2{{K: "colinear", F: []float64{eps}}}
+	if gen.Int(t, 0, 3, "twice") == 0 {
+		ops = append(ops, op2{K: "colinear", F: []float64{eps * gen.LogF(t, 0.5, 4, "eps2")}})
+	}
+	return case2{Src: s, Ops: ops}
+}
+
 func genArea(t *rapid.T) areaCase {
 	return areaCase{Src: withVariants(t, genSrc3(t, allKinds3, true, "src"), true, true, true, "var"),
 		Frac: gen.LogF(t, 0.05, 1, "frac"), Iters: gen.Int(t, 1, 3, "iters"), API: gen.Int(t, 0, 2, "api")}
@@ -103,7 +120,9 @@ func TestProp(t *testing.T) {
 	runtime.GOMAXPROCS(2)
 	kit.Run(t, "C10", rule,
 		kit.Clause[case3]{Name: "C10/3d/decimate", Quick: 1200, Thorough: 30000, Budget: budget, Fresh: true, Gen: single3("decimate", allKinds3, false, true, true, true), Check: checkOps3},
-		// exhaustive split search: milliseconds when it works, so a 5 s watchdog is a factor > 500
+		// split search with alternatives: ~2 ms per case on average (slowest cases tens of ms) when the search is
+		// bounded, so a 5 s watchdog is a factor > 100 on the slowest case; an unbounded search on a valence-22
+		// hole does not finish in hours.  (The replay of the known finding costs 3x this budget in every run.)
 		kit.Clause[case3]{Name: "C10/3d/decimate-split", Quick: 500, Thorough: 12000, Budget: 5 * time.Second, Fresh: true, Gen: genDecimateSplit, Check: checkOps3},
 		kit.Clause[case3]{Name: "C10/3d/eliminate-coplanar", Quick: 1200, Thorough: 30000, Budget: budget, Fresh: true, Gen: genCoplanar, Check: checkOps3},
 		kit.Clause[case3]{Name: "C10/3d/eliminate-edges", Quick: 600, Thorough: 15000, Budget: budget, Fresh: true, Gen: single3("edges", allKinds3, true, true, true, false), Check: checkOps3},
@@ -119,6 +138,7 @@ func TestProp(t *testing.T) {
 		kit.Clause[case3]{Name: "C10/3d/chain", Quick: 1200, Thorough: 30000, Budget: budget, Fresh: true, Gen: genChain3, Check: checkOps3},
 		kit.Clause[case2]{Name: "C10/2d/decimate", Quick: 1500, Thorough: 40000, Budget: budget, Fresh: true, Gen: single2("decimate", allKinds2), Check: checkOps2},
 		kit.Clause[case2]{Name: "C10/2d/eliminate-colinear", Quick: 2000, Thorough: 50000, Budget: budget, Fresh: true, Gen: single2("colinear", allKinds2), Check: checkOps2},
+		kit.Clause[case2]{Name: "C10/2d/eliminate-colinear-orders", Quick: 1500, Thorough: 40000, Budget: budget, Fresh: true, Gen: genColinearOrders, Check: checkOps2},
 		kit.Clause[case2]{Name: "C10/2d/subdivide", Quick: 1000, Thorough: 30000, Budget: budget, Fresh: true, Gen: single2("subdivide", allKinds2), Check: checkOps2},
 		kit.Clause[case2]{Name: "C10/2d/blur", Quick: 1000, Thorough: 30000, Budget: budget, Fresh: true, Gen: single2("blur", allKinds2), Check: checkOps2},
 		kit.Clause[case2]{Name: "C10/2d/smooth", Quick: 1000, Thorough: 30000, Budget: budget, Fresh: true, Gen: func(t *rapid.T) case2 {
